@@ -101,6 +101,8 @@ def main(prop, tier, seed):
                 rest.append(e)
         eps = keep + rest[:max(0, QUICK_BUDGET[prop] - len(keep))]
     # thorough: many small traces (a trace of 150 000 lines takes more memory in TLC than sixteen validations side by side have)
+    import honest
+    honest.check(bdir, wd, sessgen.cfgs(), "sessgen")        # every configuration's undisturbed handshake works (vacuity guard)
     shards = runner.shard(eps, 16 if tier == "quick" else 160)
     runs = runner.run_all(bdir, wd, shards, sessgen.render)
     for r in runs:
